@@ -322,21 +322,30 @@ impl ZoSortedStrVec {
     /// # Returns
     /// An iterator over string slices in the specified range
     pub fn range(&self, start: &str, end: &str) -> ZoSortedStrVecRange<'_> {
-        let start_idx = match self.binary_search(start) {
-            Ok(idx) => idx,
-            Err(idx) => idx,
-        };
-
-        let end_idx = match self.binary_search(end) {
-            Ok(idx) => idx,
-            Err(idx) => idx,
-        };
+        // Leftmost positions: all duplicates of `start` are included and all
+        // duplicates of `end` are excluded
+        let start_idx = self.lower_bound(start);
+        let end_idx = self.lower_bound(end);
 
         ZoSortedStrVecRange {
             vec: self,
             current: start_idx,
             end: end_idx.min(self.len),
         }
+    }
+
+    /// Index of the first string >= needle
+    fn lower_bound(&self, needle: &str) -> usize {
+        let mut left = 0;
+        let mut right = self.len;
+        while left < right {
+            let mid = left + (right - left) / 2;
+            match self.get(mid) {
+                Some(s) if s < needle => left = mid + 1,
+                _ => right = mid,
+            }
+        }
+        left
     }
 
     /// Get total memory usage in bytes
